@@ -23,26 +23,7 @@ GOOD = re.compile(r"AsyncReadExt::(read_exact|read_u8|read_u16|read_u32|read_u64
 RAW = re.compile(r"AsyncReadExt::(read|read_buf|read_to_end|read_to_string)$|AsyncBufReadExt::(fill_buf|consume|lines|split)$|AsyncRead::poll_read$|AsyncBufRead::(poll_fill_buf|consume)$")
 
 
-def run(chk, prog):
-    n = 0
-    for f in prog.fns.values():
-        if f.crate != "redproxy_rs" or not f.file.endswith(DEC_FILES):
-            continue
-        for c in f.user_calls:
-            p = c.path or ""
-            if "tokio::io::" not in p:
-                continue
-            if GOOD.search(p):
-                n += 1
-                chk.instance("S1", c.where(), "%s in %s" % (short(p), f.path), True, "completion-looping primitive", nontrivial=False)
-            elif RAW.search(p):
-                n += 1
-                chk.instance("S1", c.where(), "%s in %s" % (short(p), f.path), False)
-                chk.finding("S1", f.key, short(p), "", c.where(),
-                            "%s uses the raw primitive %s in a handshake decoder: the parse result then depends on how the peer's bytes were segmented"
-                            % (f.path, short(p)))
-    chk.floor("S1", n, 35, "read sites in handshake decoders")
-
+def rule_s2(chk, prog, rule):
     # ---------------------------------------------------------------- S2
     nd = 0
     for f in prog.fns.values():
@@ -93,12 +74,35 @@ def run(chk, prog):
                 if okbs and present and not all(any(edge_dominates(f, sb, tb, okb) for (sb, tb) in present) for okb in okbs):
                     ok = False
                     why = "an Ok result is reachable without passing the edge on which the delimiter was seen"
-            chk.instance("S2", c.where(), "%s in %s: the delimiter is verified before the field is accepted" % (m.group(1), f.path), ok, why)
+            chk.instance(rule, c.where(), "%s in %s: the delimiter is verified before the field is accepted" % (m.group(1), f.path), ok, why)
             if not ok:
-                chk.finding("S2", f.key, m.group(1), "", c.where(),
+                chk.finding(rule, f.key, m.group(1), "", c.where(),
                             "%s accepts the result of %s without checking that the delimiter was actually read: input truncated by EOF (or by the "
                             "length limit) yields a fabricated, shorter field" % (f.path, m.group(1)))
-    chk.floor("S2", nd, 2, "delimiter-terminated reads")
+    chk.floor(rule, nd, 2, "delimiter-terminated reads")
+
+
+def run(chk, prog):
+    n = 0
+    for f in prog.fns.values():
+        if f.crate != "redproxy_rs" or not f.file.endswith(DEC_FILES):
+            continue
+        for c in f.user_calls:
+            p = c.path or ""
+            if "tokio::io::" not in p:
+                continue
+            if GOOD.search(p):
+                n += 1
+                chk.instance("S1", c.where(), "%s in %s" % (short(p), f.path), True, "completion-looping primitive", nontrivial=False)
+            elif RAW.search(p):
+                n += 1
+                chk.instance("S1", c.where(), "%s in %s" % (short(p), f.path), False)
+                chk.finding("S1", f.key, short(p), "", c.where(),
+                            "%s uses the raw primitive %s in a handshake decoder: the parse result then depends on how the peer's bytes were segmented"
+                            % (f.path, short(p)))
+    chk.floor("S1", n, 35, "read sites in handshake decoders")
+
+    rule_s2(chk, prog, "S2")
 
     # ---------------------------------------------------------------- S3
     sr = prog.find(r"StreamFrameReader<T> as common::frames::FrameReader>::read$", "redproxy_rs")
